@@ -208,6 +208,12 @@ func (c *Ctx) rulesC13(a *coreAnchors, la *LockAnalysis) {
 		return strings.HasPrefix(id, "pkg/machine.Machine.") || strings.HasPrefix(id, "pkg/machine.Subscriptions.")
 	})
 
+	// the same for the network machine's own locks (re-acquisitions and inversions among them)
+	c.rule("C13.netlock", "no NetworkMachine method re-acquires one of the network machine's RWMutexes it already holds (a read lock followed by the write lock of the same mutex on one goroutine never returns), and no two of its locks are taken in opposite orders")
+	c.lockOrderRule(la, "C13.netlock", func(id string) bool {
+		return strings.HasPrefix(id, "pkg/rpc.NetworkMachine.")
+	})
+
 	// C13.loop
 	fCtx := c.field(pm, "Machine", "ctx")
 	fCtxP := c.field(pm, "Machine", "ctxParent")
@@ -331,6 +337,16 @@ func (c *Ctx) lockOrderRule(la *LockAnalysis, rule string, sel func(id string) b
 			for _, e2 := range rev {
 				// deadlock needs: T1 holds a (m1) wants b (n1); T2 holds b (m2) wants a (n2);
 				// b conflict: n1 vs m2 ; a conflict: n2 vs m1
+				// both paths run under a common third lock held exclusively: they cannot overlap
+				gated := false
+				for id, m := range e1.Held {
+					if id != k.a && id != k.b && id != qLock && m == 'W' && e2.Held[id] == 'W' {
+						gated = true
+					}
+				}
+				if gated {
+					continue
+				}
 				if (e1.ToM == 'W' || e2.FromM == 'W') && (e2.ToM == 'W' || e1.FromM == 'W') {
 					if badF == nil {
 						badF, badR = e1, e2
